@@ -256,24 +256,25 @@ def run_property(pid, tier, rules_fn, explanation, not_decided, trusted_base=(),
         crash = "anchor not found: %s" % e
     for r in rules:
         r.finish()
-    # Second opinion before reporting: most rules are intraprocedural, so a guard or release that a refactoring moved into a new helper
-    # function would look like a violation. If anything is about to be reported, evaluate the rules once more on facts in which helper
-    # functions unknown to the rules are inlined into their callers (inline.py); report only what persists there.
+    # Helper functions that did not exist in the pinned tree (a refactoring may have moved a guard or a release into one): most rules are
+    # intraprocedural, so whenever such helpers exist the rules are evaluated on facts in which they are spliced into their callers
+    # (inline.py), and that evaluation is the verdict. The plain evaluation is kept in the evidence.
     inlined_note = None
-    if (crash or any(r.violations for r in rules)) and not os.environ.get("VERIF_NO_INLINE"):
+    if not os.environ.get("VERIF_NO_INLINE"):
         try:
-            import inline
             ctx2 = Ctx(tier, inline_helpers=True)
-            rules2 = rules_fn(ctx2)
-            for r in rules2:
-                r.finish()
+            _ = ctx2.facts
             helpers = ctx2.inlined_helpers()
-            if helpers and not any(r.violations for r in rules2):
-                inlined_note = {"decided_after_inlining": sorted(helpers), "why": "the first pass reported %s; with these helper functions spliced into their "
-                                "callers every rule is discharged" % sorted(set(v.full_key() for r in rules for v in r.violations) | ({"crash"} if crash else set()))[:6]}
+            if helpers:
+                rules2 = rules_fn(ctx2)
+                for r in rules2:
+                    r.finish()
+                plain = sorted(set(v.full_key() for r in rules for v in r.violations) | ({"crash"} if crash else set()))
+                inlined_note = {"helpers_inlined": sorted(helpers), "violations_without_inlining": plain[:12],
+                                "why": "functions that are not part of the pinned tree are analysed in the context of their callers"}
                 rules, crash, ctx = rules2, None, ctx2
-        except AnchorError:
-            pass
+        except AnchorError as e:
+            crash = "anchor not found (after helper inlining): %s" % e
     # checker self-validation on the fixture crate: fire on bad_*, silent on good_*
     if selftest_fn is not None and not os.environ.get("VERIF_NO_SELFTEST"):
         try:
